@@ -17,6 +17,8 @@ accesses, loops ended, Σ indices).
       `is_same_labeling` / `subm`: `a[p]`, `b[p]` for `p < na` (is_same_labeling returns after the first mismatch at `stop`).
   kind=disk2d n0=<nat> n1=<nat> radius=<int>
       `py_disk_2d`: the running pointer `iter` at the cells it stores to; extra `cells=`.
+  kind=poles order=<int>   `init_poles`: `pole[·]` against the 2 cells; extra `thrown=` (order outside 2..5: exception before any access)
+  kind=splcoef order=<int> `spline_coefficients`: the stores `result[hh]`, `hh <= order`, into `order + 1` cells
   kind=domangle ns=<nat> btw=<0/1 list, row-major ns×ns: between_angles(samples[i], samples[j])>
       `compute_dominant_angle` after the sort: `samples[0]`, the first window loop, the update loop with `j` wrapping at `ns`;
       extra `early=` (returned from the first loop), `jend=`.
@@ -167,6 +169,21 @@ def angleSampleCount : Nat :=
   ((List.range 13).flatMap fun r => (List.range 13).filter fun c =>
     decide ((Int.ofNat r - 6) * (Int.ofNat r - 6) + (Int.ofNat c - 6) * (Int.ofNat c - 6) < 36)).length
 
+
+/-! ## `_interpolate.cpp`: the small tables of the spline code -/
+
+/-- `init_poles(FT pole[2], npoles, weight, order)`: the stores `pole[0]` (orders 2, 3) resp. `pole[0]`, `pole[1]` (orders 4, 5), then
+    `for (pi = 0; pi < npoles; ++pi) … pole[pi] …` (and the same loop over `pole[pi]` in `spline_filter1d`); any other order throws
+    before an access (`none`) -/
+def polesAccesses (order : Int) : Option (List FAcc) :=
+  let np : Option Nat := if order = 2 ∨ order = 3 then some 1 else if order = 4 ∨ order = 5 then some 2 else none
+  np.map fun n => ((List.range n).map fun i => FAcc.mk (Int.ofNat i) 2) ++ ((List.range n).map fun i => FAcc.mk (Int.ofNat i) 2)
+
+/-- `spline_coefficients(x, order, result)` with `result` = `splvals[r][kk]` after `resize(order + 1)`:
+    `for (hh = 0; hh <= order; hh++) result[hh] = …` -/
+def splineCoeffStores (order : Int) : List FAcc :=
+  (List.range (order + 1).toNat).map fun hh => FAcc.mk (Int.ofNat hh) (order + 1)
+
 /-! ## driver -/
 
 def sI (l : List Int) : Int := l.foldl (· + ·) 0
@@ -193,6 +210,11 @@ def handleFeat (a : Args) : Option String :=
   | "disk2d" =>
     let l := diskStores (a.nat "n0") (a.nat "n1") (a.int "radius")
     some (report l ++ s!" cells={l.length}")
+  | "poles" =>
+    match polesAccesses (a.int "order") with
+    | some l => some (report l ++ " thrown=0")
+    | none => some (report [] ++ " thrown=1")
+  | "splcoef" => some (report (splineCoeffStores (a.int "order")))
   | "domangle" =>
     let ns := a.nat "ns"
     let m := a.ints "btw"
